@@ -275,11 +275,17 @@ class FileInspector(abc.ABC):
         self.post_process()
 
         # Check to see if the post-read processing added new regions
-        # which may require the current chunk.
-        new_regions = set(self._capture_regions.values()) - pre_regions
-        if new_regions:
+        # which may require the current chunk. Those regions may in turn
+        # be completed by this chunk and define further regions, so repeat
+        # until the format has nothing more to add.
+        seen_regions = pre_regions
+        new_regions = set(self._capture_regions.values()) - seen_regions
+        while new_regions:
             self._capture(chunk, only=[self.region_name(r)
                                        for r in new_regions])
+            seen_regions = seen_regions | new_regions
+            self.post_process()
+            new_regions = set(self._capture_regions.values()) - seen_regions
 
         post_complete = {region for region in self._capture_regions.values()
                          if region.complete}
